@@ -72,6 +72,7 @@ struct Inner {
     abort: Option<Abort>,
     ending: bool,
     ignore: Vec<&'static str>,
+    points_after_release: Vec<&'static str>,
     only_points: Option<Vec<&'static str>>,
     eager_others: bool,
     nonblocking_locks: Vec<&'static str>,
@@ -150,6 +151,10 @@ pub struct SchedCfg {
     /// observations (10 ms apart) is taken for blocked on an unmodelled primitive; the token goes to another thread, the blocked one re-joins the
     /// protocol at its next hook
     pub detect_real_blocking: bool,
+    /// lock kinds whose `Release` is followed by a scheduling point: a thread can be preempted
+    /// right after it gave the lock back (what it does next without any hook - flushing a writer
+    /// it took out of the shared state, say - can then fall behind another thread's operations)
+    pub points_after_release: Vec<&'static str>,
 }
 
 impl Sched {
@@ -170,6 +175,7 @@ impl Sched {
                 abort: None,
                 ending: false,
                 ignore: cfg.ignore,
+                points_after_release: cfg.points_after_release,
                 only_points: cfg.only_points,
                 eager_others: cfg.eager_others,
                 nonblocking_locks: cfg.nonblocking_locks,
@@ -506,6 +512,10 @@ impl Sched {
                     g.threads[tid].want = None;
                 }
                 g.last_progress = Instant::now();
+                if g.points_after_release.contains(k) && g.running == Some(tid) {
+                    drop(g);
+                    return self.sync_op(Op::Point("after_release"));
+                }
             }
             (Op::Release(..), None) => {}
             (Op::Spawned(kind), _) => {
